@@ -44,13 +44,30 @@ def table_case(D, E, V, w, f, sim, real, ktab, rng) -> dict:  # noqa: N803
     with quiet():
         val = loss.compute_loss(sim_arr, real_arr)
     ftab = [list(range(V)) if t is None else list(t) for t in f]
+    if w is None and not any(t is not None for t in f) and loss.coordinate_filters is None:
+        d2 = D + 1 if D < 4 else D - 1
+        s2 = np.stack([np.stack([series_of(0) for _ in range(d2)], axis=1) for _ in range(E)])
+        r2 = np.stack([series_of(0) for _ in range(d2)], axis=1)
+        try:
+            with quiet():
+                a = float(loss.compute_loss(s2, r2))
+                b = float(TableLoss().compute_loss(s2, r2))
+            reused_ok = abs(a - b) <= 1e-12
+        except Exception:  # noqa: BLE001
+            reused_ok = False
+        calls.clear()
+        with quiet():
+            val2 = loss.compute_loss(sim_arr, real_arr)
+        reused_ok = reused_ok and float(val2) == float(val)
+    else:
+        reused_ok = True
     wi = [1] * D if w is None else list(w)
     scaled = float(val) * (D if w is None else 1)
     li = int(round(scaled))
     return {"e": "table", "D": D, "E": E, "w": wi, "f": ftab, "sim": [list(s) for s in sim], "real": list(real), "ktab": ktab,
             "loss": li if abs(scaled - li) < 1e-9 else -999999, "calls": calls,
             "inputsame": bool(np.array_equal(ks, sim_arr) and np.array_equal(kr, real_arr)),
-            "statesame": st0 == ckpt.h(ckpt.deep(loss.__dict__)), "wdefault": w is None}
+            "statesame": st0 == ckpt.h(ckpt.deep(loss.__dict__)), "wdefault": w is None, "reusedok": reused_ok}
 
 
 def table_traces(tier: str, rng: random.Random) -> list[list[dict]]:
@@ -66,7 +83,8 @@ def table_traces(tier: str, rng: random.Random) -> list[list[dict]]:
         f = [None if rng.random() < 0.3 else [rng.randrange(V) for _ in range(V)] for _ in range(D)]
         sim = [[rng.randrange(V) for _ in range(D)] for _ in range(E)]
         real = [rng.randrange(V) for _ in range(D)]
-        traces.append([table_case(D, E, V, w, f, sim, real, ktab, rng)])
+        ev = table_case(D, E, V, w, f, sim, real, ktab, rng)
+        traces.append([ev, {"e": "rel", "kind": "fresh-object:table", "ok": ev["reusedok"]}])
     return traces
 
 
@@ -128,6 +146,22 @@ def builtin_trace(rng: random.Random) -> list[dict]:
         for k in (0, 1, 0, 2, 1):
             v, e = evaluate(sims[k])
             vals[k] = v
+            ev.append(e)
+        # the same object on data with another number of coordinates (and back): equal to what a fresh object returns
+        if cw is None:
+            for d2 in [x for x in (1, 2, 3) if x != D][:2]:
+                real2 = g.standard_normal((n, d2))
+                sim2 = g.standard_normal((E, n, d2))
+                try:
+                    reused = ("ok", float(loss.compute_loss(sim2, real2)))
+                except Exception as e:  # noqa: BLE001
+                    reused = (type(e).__name__, 0.0)
+                try:
+                    fresh = ("ok", float(mk(None).compute_loss(sim2, real2)))
+                except Exception as e:  # noqa: BLE001
+                    fresh = (type(e).__name__, 0.0)
+                ev.append({"e": "rel", "kind": f"fresh-object:{name}", "ok": reused[0] == fresh[0] and close(reused[1], fresh[1], 1e-12)})
+            v, e = evaluate(sims[0])
             ev.append(e)
         # reordering the ensemble members changes nothing
         perm = list(range(E))
@@ -205,7 +239,7 @@ def run(tier: str) -> int:
     for _ in range(4):
         traces.append(badlen_trace(rng))
     res = tlc.validate_parallel("LossInterfaceTrace", "LossInterfaceTrace.cfg",
-                                [[{k: v for k, v in e.items() if k not in ("name", "wdefault")} for e in t] for t in traces], parts=12)
+                                [[{k: v for k, v in e.items() if k not in ("name", "wdefault", "reusedok")} for e in t] for t in traces], parts=12)
     chk.add_validation(res)
     chk.evaluations = sum(len(t) for t in traces)
     chk.extra.update({"table_driven_cases": n_tab, "builtin_sequences": len(traces) - n_tab - 4,
